@@ -67,6 +67,18 @@ func c09Cases(tier string, seed int64) []core.Case {
 		cases = append(cases, core.Case{ID: fmt.Sprintf("tagiface/dotu=%v", dotu), Run: func(ctx *core.Ctx) core.Result { return c09TagIface(ctx, dotu, tier == "thorough") }})
 		cases = append(cases, core.Case{ID: fmt.Sprintf("tagiface-all-operations/dotu=%v", dotu), Run: func(ctx *core.Ctx) core.Result { return c09TagMixed(ctx, dotu, tier == "thorough") }})
 	}
+	// a client that asks for 9P2000.u and is granted plain 9P2000: replies whose layout differs between the dialects
+	// (Rerror, Rstat) are read in the dialect that was granted
+	plain := func(run func(ctx *core.Ctx) core.Result) func(ctx *core.Ctx) core.Result {
+		return func(ctx *core.Ctx) core.Result {
+			peerPlainOnly = true
+			defer func() { peerPlainOnly = false }()
+			return run(ctx)
+		}
+	}
+	cases = append(cases, core.Case{ID: "errors/asked-dotu-granted-plain", Run: plain(func(ctx *core.Ctx) core.Result { return c09Errors(ctx, true) })})
+	cases = append(cases, core.Case{ID: "storm/callers=8/asked-dotu-granted-plain", Run: plain(func(ctx *core.Ctx) core.Result { return c09Storm(ctx, true, 8, 300, false) })})
+	cases = append(cases, core.Case{ID: "tagiface-all-operations/asked-dotu-granted-plain", Run: plain(func(ctx *core.Ctx) core.Result { return c09TagMixed(ctx, true, false) })})
 	wrap := 70000
 	if tier == "thorough" {
 		wrap = 1000000
@@ -87,8 +99,12 @@ type sess struct {
 }
 
 // connect creates a peer and a connected client (Tversion answered by the peer).
+// peerPlainOnly: the peer of the running case speaks plain 9P2000 only, whatever the client asks for (a worker runs
+// one case at a time): the session's dialect is what the peer granted.
+var peerPlainOnly bool
+
 func connect(msize uint32, dotu bool, serve bool) (*sess, error) {
-	p := peer.New(msize, true)
+	p := peer.New(msize, !peerPlainOnly)
 	s := &sess{p: p, dotu: dotu, user: script.Users{}.Uid2User(0)}
 	s.ctl = sched.New(nil, nil)
 	s.ctl.Trace = false
@@ -591,7 +607,7 @@ func c09Errors(ctx *core.Ctx, dotu bool) core.Result {
 		}
 		ge, ok := e.(*go9p.Error)
 		wantNum := uint32(0)
-		if dotu {
+		if dotu && !peerPlainOnly {
 			wantNum = peer.ErrNum(fn)
 		}
 		switch {
@@ -975,7 +991,7 @@ func c09TagMixed(ctx *core.Ctx, dotu bool, thorough bool) core.Result {
 				bad = "has no reply"
 			case done.Rc.Type != a.Type:
 				bad = fmt.Sprintf("reply type %d, the peer answered %d", done.Rc.Type, a.Type)
-			case a.Type == wire.Rerror && (done.Rc.Error != a.Ename || (dotu && done.Rc.Errornum != a.Ecode)):
+			case a.Type == wire.Rerror && (done.Rc.Error != a.Ename || (dotu && !peerPlainOnly && done.Rc.Errornum != a.Ecode)):
 				bad = "error text/number of another reply"
 			case a.Type == wire.Rread && !bytes.Equal(done.Rc.Data, a.Data):
 				bad = "foreign data"
